@@ -45,10 +45,10 @@ end
 
 /-- tokens that would make the parser at level `k` continue instead of returning -/
 def blocks : Nat → Tk → Bool
-  | 0, t => t == .lparen
-  | 1, t => t == .lparen || t == .slash || t == .plus
-  | 2, t => t == .lparen || t == .slash || t == .plus || t == .andand
-  | _, t => t == .lparen || t == .slash || t == .plus || t == .andand || t == .barbar
+  | 0, _ => false
+  | 1, t => t == .slash || t == .plus
+  | 2, t => t == .slash || t == .plus || t == .andand
+  | _, t => t == .slash || t == .plus || t == .andand || t == .barbar
 
 /-- what follows does not continue a level-`k` phrase -/
 def Stop (k : Nat) (rest : List Tk) : Prop := ∀ t, rest.head? = some t → blocks k t = false
@@ -57,10 +57,54 @@ theorem Stop.mono {k : Nat} {rest : List Tk} (h : Stop (k + 1) rest) : Stop k re
   intro t ht
   have := h t ht
   match k with
-  | 0 => simp [blocks] at this ⊢; exact this.1.1
-  | 1 => simp [blocks] at this ⊢; exact ⟨⟨this.1.1.1, this.1.1.2⟩, this.1.2⟩
-  | 2 => simp [blocks] at this ⊢; exact ⟨⟨⟨this.1.1.1.1, this.1.1.1.2⟩, this.1.1.2⟩, this.1.2⟩
+  | 0 => simp [blocks]
+  | 1 => simp [blocks] at this ⊢; exact ⟨this.1.1, this.1.2⟩
+  | 2 => simp [blocks] at this ⊢; exact ⟨⟨this.1.1.1, this.1.1.2⟩, this.1.2⟩
   | k + 3 => simpa [blocks] using this
+
+/-- the identifier a printed expression ends with, if it ends with one: what comes next could then be read
+as part of it (`name (` is a call, `x'…'` a shell-expanded string) -/
+def endsIdent : Expr → Option String
+  | .var n => some n
+  | .concat _ r => endsIdent r
+  | .joinL _ r => endsIdent r
+  | .joinR r => endsIdent r
+  | .and _ r => endsIdent r
+  | .or _ r => endsIdent r
+  | .str _ => none
+  | .backtick _ => none
+  | .call _ _ => none
+  | .cond _ _ _ _ _ => none
+  | .assert _ _ _ _ => none
+  | .group _ => none
+
+/-- what follows `e` is not swallowed by a trailing identifier of `e` -/
+def After (e : Expr) (rest : List Tk) : Prop :=
+  ∀ n, endsIdent e = some n → rest.head? ≠ some .lparen ∧ (n = "x" → ∀ s, rest.head? ≠ some (.strAdj s))
+
+theorem after_cons (e : Expr) (t : Tk) (rest : List Tk) (h1 : t ≠ .lparen) (h2 : ∀ s, t ≠ .strAdj s) : After e (t :: rest) := by
+  intro n _
+  refine ⟨by simpa using h1, fun _ s => by simpa using h2 s⟩
+
+/-- a continuation whose first token can never be swallowed by a trailing identifier -/
+def NoSwallow (rest : List Tk) : Prop := rest.head? ≠ some .lparen ∧ ∀ s, rest.head? ≠ some (.strAdj s)
+
+theorem after_of_noSwallow (e : Expr) {rest : List Tk} (h : NoSwallow rest) : After e rest :=
+  fun _ _ => ⟨h.1, fun _ s => h.2 s⟩
+
+theorem noSwallow_cons (t : Tk) (rest : List Tk) (h1 : t ≠ .lparen) (h2 : ∀ s, t ≠ .strAdj s) : NoSwallow (t :: rest) :=
+  ⟨by simpa using h1, fun s => by simpa using h2 s⟩
+
+theorem after_append {e : Expr} {l : List Tk} (more : List Tk) (hne : l ≠ []) (h : After e l) : After e (l ++ more) := by
+  cases l with
+  | nil => exact absurd rfl hne
+  | cons x xs => simpa [After] using h
+
+theorem after_nil (e : Expr) : After e [] := by
+  intro n _; simp
+
+theorem after_of_none {e : Expr} (h : endsIdent e = none) (rest : List Tk) : After e rest := by
+  intro n hn; rw [h] at hn; cases hn
 
 theorem Stop.le {j k : Nat} {rest : List Tk} (h : Stop k rest) (hjk : j ≤ k) : Stop j rest := by
   induction k with
@@ -161,8 +205,16 @@ theorem size_pos : (e : Expr) → 1 ≤ e.size
   | .group _ => by simp [Expr.size]
 
 /-- the first token of a printed expression is never a closing parenthesis -/
+theorem litTokens_cases (l : String) :
+    (∃ cs, l.toList = 'x' :: cs ∧ litTokens l = [.ident "x", .strAdj (String.ofList cs)]) ∨ litTokens l = [.str l] := by
+  unfold litTokens
+  split
+  · rename_i cs h; exact .inl ⟨cs, h, rfl⟩
+  · exact .inr rfl
+
 theorem head_ne_rparen : (e : Expr) → ∀ rest, (printE e ++ rest).head? ≠ some .rparen
-  | .str _, _ => by simp [printE]
+  | .str l, _ => by
+    rcases litTokens_cases l with ⟨cs, _, h⟩ | h <;> simp [printE, h]
   | .var _, _ => by simp [printE]
   | .backtick _, _ => by simp [printE]
   | .call _ _, _ => by simp [printE]
@@ -186,7 +238,7 @@ theorem head_ne_rparen : (e : Expr) → ∀ rest, (printE e ++ rest).head? ≠ s
 /-- a value starts with a token `parse_conjunct` hands to `parse_value` -/
 theorem valueStart_of_level0 (e : Expr) (hw : WF e) (hl : level e = 0) (rest : List Tk) : ValueStart (printE e ++ rest) := by
   cases e with
-  | str s => simp [ValueStart, printE]
+  | str l => rcases litTokens_cases l with ⟨cs, _, h⟩ | h <;> simp [ValueStart, printE, h]
   | var n => simp only [WF, okName] at hw; simp [ValueStart, printE, hw.1]
   | backtick s => simp [ValueStart, printE]
   | call f args => simp only [WF, okName] at hw; simp [ValueStart, printE, hw.1.1]
@@ -211,26 +263,27 @@ theorem printElse_cond (a : Expr) (o : CondOp) (b t x : Expr) :
 
 /-- reach any level `k ≥ L` from the round trip at the expression's own level `L` -/
 theorem climb (e : Expr) (L : Nat)
-    (own : ∀ f rest, 4 * e.size + L ≤ f → Stop L rest → parseAt L f (printE e ++ rest) = some (e, rest))
+    (own : ∀ f rest, 4 * e.size + L ≤ f → Stop L rest → After e rest → parseAt L f (printE e ++ rest) = some (e, rest))
     (hstart : L = 0 → ∀ rest, ValueStart (printE e ++ rest)) :
-    ∀ k, L ≤ k → k ≤ 3 → ∀ f rest, 4 * e.size + k ≤ f → Stop k rest →
+    ∀ k, L ≤ k → k ≤ 3 → ∀ f rest, 4 * e.size + k ≤ f → Stop k rest → After e rest →
       parseAt k f (printE e ++ rest) = some (e, rest) := by
-  intro k hLk hk3 f rest hf hstop
-  have h0 := own (f - (k - L)) rest (by omega) (hstop.le hLk)
+  intro k hLk hk3 f rest hf hstop hafter
+  have h0 := own (f - (k - L)) rest (by omega) (hstop.le hLk) hafter
   have := lift h0 (fun h => hstart h rest) k hLk hk3 hstop
   rwa [show f - (k - L) + (k - L) = f by omega] at this
 
 /-- `parse_condition` on a printed condition, from the round trips of its two sides -/
 theorem condition_rt (a b : Expr) (o : CondOp)
-    (ha : ∀ f rest, 4 * a.size + 3 ≤ f → Stop 3 rest → parseExpression f (printE a ++ rest) = some (a, rest))
-    (hb : ∀ f rest, 4 * b.size + 3 ≤ f → Stop 3 rest → parseExpression f (printE b ++ rest) = some (b, rest))
-    (g : Nat) (rest : List Tk) (hga : 4 * a.size + 4 ≤ g) (hgb : 4 * b.size + 4 ≤ g) (hstop : Stop 3 rest) :
+    (ha : ∀ f rest, 4 * a.size + 3 ≤ f → Stop 3 rest → After a rest → parseExpression f (printE a ++ rest) = some (a, rest))
+    (hb : ∀ f rest, 4 * b.size + 3 ≤ f → Stop 3 rest → After b rest → parseExpression f (printE b ++ rest) = some (b, rest))
+    (g : Nat) (rest : List Tk) (hga : 4 * a.size + 4 ≤ g) (hgb : 4 * b.size + 4 ≤ g) (hstop : Stop 3 rest)
+    (hafter : After b rest) :
     parseCondition g (printE a ++ .op o :: (printE b ++ rest)) = some ((a, o, b), rest) := by
   obtain ⟨g', rfl⟩ : ∃ g', g = g' + 1 := ⟨g - 1, by omega⟩
   unfold parseCondition
-  rw [ha g' _ (by omega) (stop_cons 3 _ _ (by simp [blocks]))]
+  rw [ha g' _ (by omega) (stop_cons 3 _ _ (by simp [blocks])) (after_cons _ _ _ (by simp) (by simp))]
   simp only
-  rw [hb g' _ (by omega) hstop]
+  rw [hb g' _ (by omega) hstop hafter]
 
 end Just.Syntax
 
@@ -262,38 +315,24 @@ theorem parseValue_call_ok {f : Nat} {n : String} {r r' : List Tk} {args : Exprs
     (h : parseSequence f r = some (args, r')) :
     parseValue (f + 1) (.ident n :: .lparen :: r) = some (.call n args, r') := by
   unfold parseValue
-  split
-  · rename_i heq; cases heq
-  · rename_i heq; cases heq
-  · rename_i heq; simp only [List.cons.injEq, Tk.ident.injEq] at heq; exact absurd heq.1 hn
-  · rename_i heq
-    simp only [List.cons.injEq, Tk.ident.injEq, true_and] at heq
-    obtain ⟨rfl, rfl⟩ := heq
-    simp [h]
-  · rename_i hno heq
-    simp only [List.cons.injEq, Tk.ident.injEq] at heq
-    exact (hno r heq.2.symm).elim
-  · rename_i heq; cases heq
-  · rename_i h1 h2 h3 h4 h5 h6
-    exact (h4 _ _ rfl).elim
+  split <;> try (simp_all; done)
+  rename_i h1 h2 h3 heq
+  simp only [List.cons.injEq, Tk.ident.injEq] at heq
+  exact (h3 r heq.2.symm).elim
 
-theorem parseValue_var (f : Nat) (n : String) (r : List Tk) (hn : n ≠ "assert") (hr : r.head? ≠ some .lparen) :
+theorem parseValue_var (f : Nat) (n : String) (r : List Tk) (hn : n ≠ "assert") (hr : r.head? ≠ some .lparen)
+    (hx : n = "x" → ∀ s, r.head? ≠ some (.strAdj s)) :
     parseValue (f + 1) (.ident n :: r) = some (.var n, r) := by
   unfold parseValue
-  split
-  · rename_i heq; cases heq
-  · rename_i heq; cases heq
-  · rename_i heq; simp only [List.cons.injEq, Tk.ident.injEq] at heq; exact absurd heq.1 hn
-  · rename_i heq
-    simp only [List.cons.injEq, Tk.ident.injEq] at heq
-    rw [heq.2] at hr
-    simp at hr
-  · rename_i heq
-    simp only [List.cons.injEq, Tk.ident.injEq] at heq
-    obtain ⟨rfl, rfl⟩ := heq; rfl
-  · rename_i heq; cases heq
-  · rename_i h1 h2 h3 h4 h5 h6
-    exact (h5 _ _ rfl).elim
+  split <;> simp_all
+
+theorem parseValue_xstr (f : Nat) (s : String) (r : List Tk) :
+    parseValue (f + 1) (.ident "x" :: .strAdj s :: r) = some (.str (xLit s), r) := by
+  simp [parseValue]
+
+theorem xLit_ofList {l : String} {cs : List Char} (h : l.toList = 'x' :: cs) : xLit (String.ofList cs) = l := by
+  unfold xLit
+  rw [String.toList_ofList, ← h, String.ofList_toList]
 
 theorem parseConjunct_if (f : Nat) (r : List Tk) : parseConjunct (f + 1) (.ident "if" :: r) = parseConditional f r := by
   simp [parseConjunct]
